@@ -1,6 +1,7 @@
 package main
 
 import (
+	"net"
 	"encoding/hex"
 	"context"
 	"errors"
@@ -60,6 +61,7 @@ type kvBackend struct {
 	pendingMon [][2]string // monitor lines to emit after the current op line
 	doneCtx    bool        // the current call gets a context that is already cancelled
 	down       bool        // the Redis server was closed: every call must fail
+	downUnsure bool        // … but its port could not be kept: the rest of the case is skipped
 }
 
 func newKvBackend(kind string) *kvBackend {
@@ -224,8 +226,27 @@ func (b *kvBackend) exec(ctx *Ctx, w0 []string) string {
 		// the server goes away (Redis only): from now on every call must FAIL — an answer that looks like a
 		// result ("no such key", an empty listing) would be an invention
 		if b.mr != nil {
+			// (the freed port must not fall to somebody else's server — another check's miniredis running in parallel
+			// takes a free port at random, and the client would happily talk to it: occupy the address with a listener
+			// that hangs up on every connection; if somebody was quicker, the rest of the case is not run)
+			addr := b.mr.Addr()
 			b.mr.Close()
 			b.down = true
+			if ln, err := net.Listen("tcp", addr); err == nil {
+				go func() {
+					for {
+						cn, err := ln.Accept()
+						if err != nil {
+							return
+						}
+						cn.Close()
+					}
+				}()
+				old := b.cleanup
+				b.cleanup = func() { ln.Close(); old() }
+			} else {
+				b.downUnsure = true
+			}
 		}
 		return "ok"
 	case "subms":
@@ -381,6 +402,10 @@ func kvRunCase(ctx *Ctx, kind, tag string, ops []string) {
 	}
 	written := map[string]int{} // key -> expiry of the last write (-1 none)
 	for _, o := range ops {
+		if b.downUnsure {
+			ctx.R.Comment("skipped (the closed server's port was taken by another process): " + o)
+			continue
+		}
 		w := strings.Fields(o)
 		t, _ := strconv.Atoi(w[0])
 		b.advanceTo(t)
